@@ -78,6 +78,14 @@ claim("C09",
       "NeXML vocabulary and data-type tables agree. Equality of sequences, PHYLIP/FASTA label admissibility and interleaving are not decided.",
       NOTE, "DESIGN.md section 2, C09")
 
+claim("C20",
+      "token-loop progress on the CFG, abstract interpretation under an end-of-stream assumption, flow-sensitive nullness with inter-procedural guards, raise-class resolution, call-graph SCCs",
+      "Static: no reader loop has a cycle that avoids every condition-variable assignment, token advance and exit; under the end-of-stream assumption (optional sources "
+      "return None, is_eof() holds) no token loop has a feasible cycle; values from end-of-stream-signalling sources and undeclared dimensions are not dereferenced without a "
+      "non-None test; every raise reachable from a reader entry point is of the DataParseError family; the reader call graph has no input-driven recursion beyond the recorded one; "
+      "PHYLIP's declared dimensions are compared after parsing. Well-formedness of returned objects and loops with numeric progress are not decided.",
+      NOTE, "DESIGN.md section 2, C20")
+
 _PENDING = "rule module not yet built in this session (claimed in DESIGN.md; will move to checks when the rule lands)"
 for _p in ["C01","C02","C03","C04","C05","C06","C07","C08","C09","C10","C11","C12","C13","C15","C16","C18","C20"]:
     if _p not in CLAIMED:
